@@ -148,7 +148,8 @@ def get_bytes_from_code(code):
         The bytes for the code, possibly compressed.
     """
     compressed_bytes = compress.compress_code(code)
-    if len(compressed_bytes) < len(code):
+    if (len(compressed_bytes) < len(code) and
+            len(compressed_bytes) + 8 <= 0x8000-0x4300):
         # Use compressed.
         code_length_bytes = bytes([len(code) >> 8, len(code) & 255])
         code_bytes = b''.join(
